@@ -75,6 +75,7 @@ pub fn cmd_hist(args: &[String]) {
     let mut evw = events_path.map(|p| BufWriter::new(File::create(p).unwrap()));
     let (mut histories, mut calls, mut agree, mut bad) = (0u64, 0u64, 0u64, 0u64);
     let mut expected_lines: u64 = 0;
+    let mut exp_line_texts: Vec<String> = Vec::new();
     let mut samples: Vec<Value> = Vec::new();
     for (ln, line) in BufReader::new(f).lines().enumerate() {
         let line = line.unwrap();
@@ -117,6 +118,9 @@ pub fn cmd_hist(args: &[String]) {
                 calls += 1;
                 let e = &exp[o.idx - 1];
                 expected_lines += e["log"].as_array().map(|a| a.len()).unwrap_or(0) as u64;
+                for lv in e["log"].as_array().map(|a| a.to_vec()).unwrap_or_default() {
+                    exp_line_texts.push(aj::from_aj(&lv).map(|v| v.to_string()).unwrap_or_else(|er| die(&er)));
+                }
                 match run::compare(e, &o.outcome, true, false) {
                     None => {
                         agree += 1;
@@ -160,4 +164,11 @@ pub fn cmd_hist(args: &[String]) {
     }
     writeln!(out, "{}", json!({"summary": true, "histories": histories, "cases": calls, "matched": agree, "mismatched": bad, "crashed": 0, "hung": 0,
         "expected_log_lines": expected_lines, "samples": samples, "profile": "debug"})).unwrap();
+    // the exact texts of the expected stdout lines (one per evaluated log), for the orchestrator's multiset comparison
+    if let Some(i) = args.iter().position(|a| a == "--lines") {
+        let mut w = BufWriter::new(File::create(&args[i + 1]).unwrap());
+        for t in exp_line_texts {
+            writeln!(w, "{}", t).unwrap();
+        }
+    }
 }
